@@ -1313,7 +1313,9 @@ impl Checker {
             }
         };
 
-        let resolved_path = working_dir.join(path);
+        // Normalize so that equivalent spellings of a path share one cache entry
+        // and are recognised by the cycle check below (as the import hook does).
+        let resolved_path = crate::path::normalize(working_dir.join(path));
 
         // Check the cache first
         if let Some(cached) = self.shape_cache.borrow().get(&resolved_path) {
